@@ -14,6 +14,8 @@ import (
 	"sort"
 	"strings"
 
+	"github.com/Syuparn/pangaea/object"
+
 	"panmc/internal/core"
 	"panmc/internal/panrun"
 	"panmc/internal/tk"
@@ -26,6 +28,7 @@ func init() {
 		// generous internal deadline: the run takes 1-2 minutes on an idle machine and several times that next to other jobs
 		QuickBudget: 900,
 		Rule: "G1 capture/shadowing: all combinations of {assignment before definition, between definition and call, after the first call} x 12 body shapes (read, :=, +=, derived local, inner closure created before a local reassignment, inner assignment, closure returned and called later, sibling closures sharing a frame, two-variable shadowing, closure over a parameter, nested definition scopes) x wrapper nesting 0..2; " +
+			"G17 parameters are bound per call, for every kind of expression: 101 expression templates over the parameters (literals with computed parts, expansions, chains with chain arguments, calls with keyword expansion, indexing and slicing, conditionals, interpolation, ranges, function / method / iterator literals called at once, try chains; 5 parameter signatures) x every sequence of 2 (thorough 3) argument tuples out of 4, each call compared with a function literal written for that one call; " +
 			"G16 parameters that receive nothing: 7 call shapes (keyword left out, nested literals with the same keyword, method, iterator, positional left out, chain block, variable assigned later) x 4 names (incl. names of built-in top-level functions) x {no, int, nil, function} variable of that name visible from the defining scope x nesting 0..1; " +
 			"G15 rebinding to the same object: 13 values x 12 ways of binding a name again in an inner scope to the object (or an equal cached value) the enclosing variable of that name holds x 2 later reassignments of the enclosing variable x nesting 0..1, a closure made in the inner scope read before and after the reassignment; " +
 			"G2 binding: parameter lists {0..3 positional} x {0..2 keyword} x every argument list of length <=5 (thorough 6) over {positionals, k:, j:, unknown z:, *[0..2 elements], **{k}, **{j,k}, **{w,b}; up to two ** with disjoint names} respecting the grammar, probing parameters and \\ \\N \\0 \\name \\_; " +
@@ -861,6 +864,69 @@ func genG16(emit func(tcase)) {
 	}
 }
 
+// G17: parameters are bound per call - EVERY kind of expression written over the parameters of a function gives, on every
+// call, what a function literal written for that one call gives (another syntax node, evaluated once; differential, no model):
+// a catalogue of expression templates covering the syntax (literals with computed parts, expansions, chains with chain
+// arguments, calls, indexing, conditionals, interpolation, ranges, literals of functions / methods / iterators called
+// at once, try chains) x every sequence of 2 (thorough 3) argument tuples out of 4 per signature.
+type g17sig struct {
+	params []string
+	tuples [][]string
+}
+
+var g17sigs = map[string]g17sig{
+	"io": {[]string{"pi", "po"}, [][]string{{"1", "{a: 1}"}, {"2", "{b: 2, a: 3}"}, {"0", "{}"}, {"1", "{_p: 1, c: [1]}"}}},
+	"il": {[]string{"pi", "pl"}, [][]string{{"1", "[7]"}, {"2", "[8, 9, 10]"}, {"0", "[]"}, {"1", "[nil, [1]]"}}},
+	"is": {[]string{"pi", "ps"}, [][]string{{"1", "\"x\""}, {"2", "\"yy zz\""}, {"0", "\"\""}, {"1", "\"_k\""}}},
+	"im": {[]string{"pi", "pm"}, [][]string{{"1", "%{1: 2}"}, {"2", "%{'k: 1, [1]: 2}"}, {"0", "%{}"}, {"1", "%{1: 3, 2: 4}"}}},
+	"if": {[]string{"pi", "pf"}, [][]string{{"1", "{|x| x + 1}"}, {"2", "{|x| x * 2}"}, {"0", "{|x| nil}"}, {"3", "{|x| [x]}"}}},
+}
+
+var g17templates = map[string][]string{
+	"io": {"{x: pi, **po}", "{**po}", "{\"k#{pi}\": po}", "%{pi: po}", "%{'z: pi, **po}", "po.keys(private?: true)", "po.bear({n: pi}).n", "[pi, po]", "kw(**po)", "kw(x: pi, **po)", "po@{|k, v| [k, v, pi]}",
+		"[['w, pi]]@({**po}){|p| p}", "[pi]$({**po}){|acc, x| acc}", "po == {a: pi}", "(pi if po else -pi)", "po['a]", "\"#{pi}:#{po}\"", "(po || pi)", "(po && pi)", "!po", "po.try.a.or(pi)", "{**po, **{a: pi}}", "{a: pi, **po}.a",
+		"{|| [pi, po]}()", "m{[self, pi, po]}(0)", "<{|| yield [pi, po]}>.new.next", "po.{|x| [x, pi]}", "[po]@{|x| x.keys}", "{p: po, i: pi}.p", "(pi:pi + 3).A + [po]", "po.which('a) == po", "pi.try.{|x| x + po.a}.A"},
+	"il": {"[pi, *pl]", "[*pl, pi]", "[*pl, *pl]", "pl[pi]", "pl[pi:]", "pl[:pi]", "pl[::pi]", "(pi:pl.len).A", "pl@{|x| [x, pi]}", "pl$([pi]){|acc, x| acc + [x]}", "[pi]@([*pl]){|x| x}", "pos(*pl)", "pos(pi, *pl)", "pl + [pi]", "pl * pi",
+		"pl.len + pi", "pl&@{|x| x}", "pl~@{|x| x}", "pl=@{|x| x}", "<{|n| yield n if n < pi; recur(n + 1)}>.new(0).A", "<{|n: pi| yield n}>.new.next", "{|x: pi| [x, pl]}()", "m{|y: pl| [self, y]}(pi)", "pl.{|a, b| [a, b]}", "pl@{|a, b| [a, b]}",
+		"[pl, pl][pi]", "pl == [pi]", "\"#{pl}#{pi}\"", "pl.try.at([pi]).A", "{v: pl}.v[pi]", "[pi] if pl else pl"},
+	"is": {"\"a#{pi}b#{ps}\"", "ps + pi.S", "ps * pi", "ps[pi]", "ps[:pi]", "%{ps: pi}", "{\"#{ps}\": pi}.keys(private?: true)", "ps.sym?", "ps == \"x\"", "ps.len + pi", "[ps, *ps.A]", "ps@{|c| [c, pi]}", "{^ps: pi}.keys(private?: true)", "ps.try.uc.A", "(ps if ps else pi)", "ps.{|x| x * pi}"},
+	"im": {"%{**pm}", "%{pi: 0, **pm}", "pm[pi]", "pm.keys", "pm@{|k, v| [k, v, pi]}", "[[pi, pi]]@(%{**pm}){|p| p}", "pm == %{1: pi}", "%{**pm, **pm}.len", "pm.len + pi", "[pm, pi]", "\"#{pm}\""},
+	"if": {"pf(pi)", "pi.^pf", "[pi, pi]@^pf", "[pi]@{|x| pf(x)}", "{|g: pf| g(pi)}()", "pi.try.{|x| pf(x)}.A", "[1, 2]$(pi){|acc, x| pf(acc)}", "pf.call(pi)", "{f: pf}['f](pi)", "m{pf(self)}(pi)", "pf.{|h| h(pi)}"},
+}
+
+func genG17(depth int, emit func(tcase)) {
+	names := make([]string, 0, len(g17sigs))
+	for n := range g17sigs {
+		names = append(names, n)
+	}
+	sort.Strings(names)
+	for _, sn := range names {
+		sg := g17sigs[sn]
+		for ti, tpl := range g17templates[sn] {
+			var rec func(seq []int)
+			rec = func(seq []int) {
+				if len(seq) >= 2 {
+					var calls, inline []string
+					for _, k := range seq {
+						calls = append(calls, "fn("+strings.Join(sg.tuples[k], ", ")+")")
+						// a function literal of its own for this one call (another syntax node, evaluated once)
+						inline = append(inline, "{|"+strings.Join(sg.params, ", ")+"| nil.try.{|u| "+tpl+"}.A}("+strings.Join(sg.tuples[k], ", ")+")")
+					}
+					src := "kw := {|x: 0, a: 0, b: 0| [x, a, b, \\_]}\npos := {|x, y| [x, y, \\0]}\nfn := {|" + strings.Join(sg.params, ", ") + "| nil.try.{|u| " + tpl + "}.A}\n[[" + strings.Join(calls, ", ") + "], [" + strings.Join(inline, ", ") + "]]"
+					emit(tcase{Family: fmt.Sprintf("G17/%s/%d", sn, ti), Src: src, NT: true})
+				}
+				if len(seq) == depth {
+					return
+				}
+				for k := range sg.tuples {
+					rec(append(append([]int{}, seq...), k))
+				}
+			}
+			rec(nil)
+		}
+	}
+}
+
 // ---------------------------------------------------------------- judging
 
 func judge(c *core.Ctx, t tcase, o panrun.Obs) {
@@ -873,6 +939,19 @@ func judge(c *core.Ctx, t tcase, o panrun.Obs) {
 		return
 	}
 	c.Outcome(strings.SplitN(t.Family, "/", 2)[0] + ":" + o.Kind)
+	if strings.HasPrefix(t.Family, "G17/") {
+		a, isArr := o.Val.(*object.PanArr)
+		if o.Kind != "value" || !isArr || len(a.Elems) != 2 {
+			c.HarnessError("G17 program did not evaluate to a pair of lists: %s\n%s", o.Short(), t.Src)
+			return
+		}
+		if got, want := a.Elems[0].Inspect(), a.Elems[1].Inspect(); got != want {
+			lines := strings.Split(t.Src, "\n")
+			c.Violation(core.Violation{Key: "G17/expression-over-parameters-evaluated-again/" + strings.Split(t.Family, "/")[1], Case: core.JSON(t), Desc: lines[2] + " ;; " + lines[3], Expected: want + "  (a function literal written for each call alone)", Observed: got,
+				Repro: t.Src + ".p\n"})
+		}
+		return
+	}
 	ok := o.Out == t.Out
 	class := "trace"
 	if ok {
@@ -915,6 +994,11 @@ func gen(thorough bool, emit func(tcase)) {
 	genG14(emit)
 	genG15(emit)
 	genG16(emit)
+	if thorough {
+		genG17(3, emit)
+	} else {
+		genG17(2, emit)
+	}
 	if thorough {
 		genG5(3, emit)
 	} else {
